@@ -55,6 +55,20 @@ def g():
 
 def both():
     return (f(), g())
+
+
+def base():
+    vlog.rec('base')
+    return (xh.VALUES[VER])
+
+
+def same_twice():
+    # the same function (same signature) kept under an already recorded path and then under a new one
+    return (dds.keep('/out/v2', base), dds.keep('/out/v2copy', base))
+
+
+def same_once():
+    return dds.keep('/out/v2', base)
 """
 
 
@@ -68,7 +82,7 @@ def case_strategy():
         st.just({"k": "pickle", "v": None}),
         st.tuples(st.integers(-3, 3), st.text(max_size=3)).map(lambda t: {"k": "pickle", "v": enc(t)}),
     )
-    op = st.sampled_from(["keep", "rekeep", "load", "reopen", "legacy", "keep_both", "keep", "new_view", "faulty_keep"])
+    op = st.sampled_from(["keep", "rekeep", "load", "reopen", "legacy", "keep_both", "keep", "new_view", "faulty_keep", "same_once", "same_twice"])
 
     @st.composite
     def gen(draw):
@@ -205,10 +219,10 @@ def check_case(case, ev=None, scratch=None):
                 raise Violation(f"{what}: {when}: unexpected files under the data directory: {extra}", case)
 
         def do_keep(func, paths, when):
-            r = w.call("eval", module="pk.m0", func=func, style="direct" if func != "both" else "eval")
+            r = w.call("eval", module="pk.m0", func=func, style="direct" if func in ("f", "g") else "eval")
             if r["exc"] is not None:
                 raise Violation(f"{what}: {when}: keep raised {r['exc']['type']}: {r['exc']['msg'][:300]}", case)
-            want = values[ver] if func != "both" else (values[ver], values[ver])
+            want = values[ver] if func not in ("both", "same_twice") else (values[ver], values[ver])
             if not same(r["value"], want):
                 raise Violation(f"{what}: {when}: keep returned {short(r['value'])}, expected {short(want)}", case)
             for p in paths:
@@ -233,6 +247,10 @@ def check_case(case, ev=None, scratch=None):
                 do_keep("f", ["/out/v"], when)
             elif op == "keep_both":
                 do_keep("both", ["/out/v", "/out/deep/w"], when)
+            elif op == "same_once":
+                do_keep("same_once", ["/out/v2"], when)
+            elif op == "same_twice":
+                do_keep("same_twice", ["/out/v2", "/out/v2copy"], when)
             elif op == "rekeep":
                 ver = (ver + 1) % 3
                 mt[0] += 10
